@@ -139,7 +139,22 @@ GRAPHS = {
     "badleaf": {"A": ["B"], "B": ["C"], "C": [], "D": []},
     "binaryleaf": {"A": ["B"], "B": ["C"], "C": [], "D": []},      # C exists but is not UTF-8 text: the fetch fails
     "headeronly": {"A": ["B"], "B": ["C"], "C": [], "D": []},      # D is a document without any Section
+    # the including Sections are top-level Sections of their own (not children of the Section another file includes): a
+    # document then carries the content of the files it includes directly, and nothing of what those include in turn
+    "flatchain": {"A": ["B"], "B": ["C"], "C": [], "D": []},
 }
+FLAT = ("flatchain",)
+
+
+def reach(graph, x):
+    """x and everything loading x loads (the include closure)"""
+    out, todo = [], [x]
+    while todo:
+        y = todo.pop(0)
+        if y not in out:
+            out.append(y)
+            todo += GRAPHS[graph][y]
+    return out
 PROGS = {
     "dA_lA": [("deferred_load", "A"), ("load", "A")],
     "dA_lB": [("deferred_load", "A"), ("load", "B")],
@@ -155,6 +170,7 @@ PROGS = {
     # touch: the resource changes at its source (the caller does that between two calls); a refresh has to see it
     "lA_tC_rA_lA": [("load", "A"), ("touch", "C"), ("refresh", "A"), ("load", "A")],
     "dA_tB_rA_lA_lB": [("deferred_load", "A"), ("touch", "B"), ("refresh", "A"), ("load", "A"), ("load", "B")],
+    "lA_tC_rA_lA_lB_lC": [("load", "A"), ("touch", "C"), ("refresh", "A"), ("load", "A"), ("load", "B"), ("load", "C")],
 }
 REFRESH_PROGS = [p for p, ops in PROGS.items() if any(o == "refresh" for o, _ in ops)]
 
@@ -173,6 +189,9 @@ def resource_text(graph, x, urls, old=False, ver=0):
     if not parsable(graph, x):
         return '<odML version="1.1"><section><name>sec%s</name>' % x
     body = '<property><name>%sp%s%s</name><value>%s</value><type>string</type></property>' % ("OLD" if old else "", x, "v%d" % ver if ver else "", x)
+    if graph in FLAT:
+        tops = "".join('<section><name>inc%s</name><type>t</type><include>%s#/sec%s</include></section>' % (y, urls[y], y) for y in GRAPHS[graph][x])
+        return '<?xml version="1.0" encoding="UTF-8"?>\n<odML version="1.1"><section><name>sec%s</name><type>t</type>%s</section>%s</odML>' % (x, body, tops)
     for y in GRAPHS[graph][x]:
         body += '<section><name>inc%s</name><type>t</type><include>%s#/sec%s</include></section>' % (y, urls[y], y)
     return '<?xml version="1.0" encoding="UTF-8"?>\n<odML version="1.1"><section><name>sec%s</name><type>t</type>%s</section></odML>' % (x, body)
@@ -230,6 +249,10 @@ def expected_sig(graph, x):
         return "none"
     if graph == "headeronly" and x == "D":
         return json.dumps({"secs": []}, sort_keys=True)
+    if graph in FLAT:
+        ok = lambda y: fetchable(graph, y) and parsable(graph, y)
+        return json.dumps({"secs": [{"name": "sec" + x, "props": ["p" + x], "secs": []}] +
+                                   [{"name": "inc" + y, "props": ["p" + y] if ok(y) else [], "secs": []} for y in GRAPHS[graph][x]]}, sort_keys=True)
     def content(y):
         if not (fetchable(graph, y) and parsable(graph, y)):
             return {"props": [], "secs": []}
